@@ -53,8 +53,10 @@ ASSUMPTIONS = [
     "dither is excluded from the value oracle (its draw protocol is an implementation detail) and checked for "
     "run-to-run determinism under a fixed --seed instead; the ORDER of a chain containing dither is checked by the "
     "order probe, which only assumes that the same --seed adds the same noise to an utterance of the same length",
-    "post-processors are only combined with utterances long enough to yield >= 3 frames; Standardize output is "
-    "compared only where every reference coefficient has variance >= 1e-3",
+    "post-processors are only combined with utterances long enough to yield >= 3 frames (1-2 frames for deltas and for "
+    "Standardize with global statistics); the default (per-utterance) Standardize output is compared only where every "
+    "reference coefficient has variance >= 1e-3; Standardize with global statistics reads a 2 x (F+1) float64 .npy file "
+    "written by the harness (sums | count ; sums of squares | 0) and is compared with (x - mean) / std written out",
     "float32 precision: |a-b| <= 1e-4 max(|a|,|b|) + 1e-5 max|ref| for linear features; log features are compared as "
     "exp() with |a-b| <= 1e-4 max + 2e-7 x (largest sample near the frame) [squared for power spectra]: the PyTorch "
     "port's single-precision window and filters give an absolute error proportional to the frame's amplitude (zero for "
